@@ -13,7 +13,7 @@ Clause(o) ==
         aloneBad == {i \in 1..n :
                        IF Fails(o.kinds[i]) THEN o.alone[i].ok \/ ~o.alone[i].sigma
                        ELSE ~o.alone[i].ok \/ Len(o.alone[i].out) # NQueries(o.kinds[i])}
-        wantOut == Concat([i \in 1..n |-> IF Fails(o.kinds[i]) \/ (i = 1 /\ hasCorr) THEN <<>> ELSE o.alone[i].out])
+        wantOut == Concat([i \in 1..n |-> IF Fails(o.kinds[i]) \/ (i = 1 /\ o.corr = "nogen") THEN <<>> ELSE o.alone[i].out])
                    \o (IF hasCorr /\ ~corrFails THEN <<o.corr_alone.out[Len(o.corr_alone.out)]>> ELSE <<>>)
         failing == SelectSeq([i \in 1..n |-> i], LAMBDA i : Fails(o.kinds[i]))
         wantErr == [j \in 1..Len(failing) |-> <<failing[j], o.alone[failing[j]].exc>>]
